@@ -15,7 +15,7 @@ import numpy as np
 from simcore.core import new_outcome, violation, bump
 
 PID = 'C20'
-QUICK_RUNS = 600
+QUICK_RUNS = 2500
 QUICK_SECONDS = 120
 THOROUGH_SECONDS = 900
 CASE_TIMEOUT = 300
@@ -72,8 +72,18 @@ def gen(rng, tier):
     for i in range(nfiles):
         files.append({'name': 'f%d.asdf' % i, 'rows': [rng.choice([0, 1, 2, rng.randrange(0, 30)]) for _ in cols],
                       'seed': rng.randrange(1 << 30)})
+    if rng.random() < 0.03:
+        # one large multi-dimensional (and one large 1-D) column: several MiB in a single file, so that any
+        # chunked / buffered write path of the pipe is exercised (small columns go out in one write)
+        cols[0] = {'name': 'col0', 'dtype': rng.choice(['f4', 'f8']), 'inner': rng.choice([[3], [3], [2, 2]])}
+        files[rng.randrange(nfiles)]['rows'][0] = rng.randrange(360000, 450000)
+        if ncols > 1:
+            cols[1] = {'name': 'col1', 'dtype': 'u8', 'inner': []}
+            files[rng.randrange(nfiles)]['rows'][1] = rng.randrange(540000, 700000)
     k = rng.randrange(1, ncols + 1)
     request = rng.sample([c['name'] for c in cols], k)
+    if any(r > 100000 for f in files for r in f['rows']) and 'col0' not in request:
+        request.insert(rng.randrange(len(request) + 1), 'col0')
     fault = rng.choice([None, None, 'missing-file', 'missing-field'])
     f = {'kind': fault}
     if fault == 'missing-file':
@@ -193,6 +203,8 @@ def run(case):
                 bump(out['probes'], 'empty-column')
             if any(a.ndim > 1 for a in truth[paths[0]].values()):
                 bump(out['probes'], 'multi-dimensional-column')
+            if any(a.nbytes > (4 << 20) for p in paths for a in truth[p].values()):
+                bump(out['probes'], 'column-larger-than-4MiB')
     out['steps'] = len(sink.events)
     if len(case['files']) >= 2 or len(case['request']) >= 2:
         out['nontrivial'] = [len(case['files']), len(case['request']), sorted({c['dtype'] for c in case['cols']}),
